@@ -28,6 +28,7 @@ type summary struct {
 	retAlias int          // the (single, pointer) result is parameter i; -1: fresh
 	resParam int          // no Go result: the Coq result is the final value of parameter i (-1: unit)
 	identity bool         // retAlias >= 0, nothing written: the call is the argument itself
+	resAlias map[int]bool // parameters whose integers the (fresh) result may point to: p.Y = y; return &p
 	secVars  []string     // section variables (hash functions) the definition depends on
 	text     string
 	coqType  string
@@ -62,11 +63,13 @@ type tr struct {
 	secUsed      map[string]bool
 	nfresh       int
 	globals      map[string]*val
-	destRecv     bool   // the receiver is a documented destination: its fields may be written in place
-	recvMode     bool   // translate to the FINAL VALUE OF THE RECEIVER instead of the result
-	aliasArg     int    // recvMode: this parameter IS the receiver (p.Mul(s, p)); -1: none
-	inplace      bool   // some field integer of the receiver was written in place
-	temps        []*val // values held by an expression under evaluation
+	destRecv     bool         // the receiver is a documented destination: its fields may be written in place
+	recvMode     bool         // translate to the FINAL VALUE OF THE RECEIVER instead of the result
+	aliasArg     int          // recvMode: this parameter IS the receiver (p.Mul(s, p)); -1: none
+	inplace      bool         // some field integer of the receiver was written in place
+	temps        []*val       // values held by an expression under evaluation
+	resAlias     map[int]bool // see summary.resAlias
+	objStored    *object      // struct behind a pointer parameter whose fields were stored to (p.Y = y3)
 	// loops mode
 	acc     *accTrack           // first-access tracking of the loop body being analysed
 	loopRet func(string) string // inside a loop body: wraps the value of a return statement
@@ -152,6 +155,9 @@ func (t *tr) inUse(n string, except interface{}) bool {
 		}
 		if v.sq != nil && mentions(v.sq.expr, n) {
 			return true
+		}
+		if v.el != nil && (mentions(v.el.idx, n) || (interface{}(v.el.c) != except && mentions(v.el.c.cur, n))) {
+			return true // (a slot reference l[k] uses the names of l and of k)
 		}
 		if o := v.o; o != nil && !seenO[o] {
 			seenO[o] = true
